@@ -238,8 +238,8 @@ Hypothesis ltb_negtrans : forall a b c, k_ltb K a b = false -> k_ltb K b c = fal
 Hypothesis eqb_refl : forall a, k_eqb K a a = true.
 Hypothesis eqb_le : forall u v, k_eqb K u v = true -> k_ltb K v u = false.
 Hypothesis upd_below_max : forall va vb md sa sb sx,
-  k_ltb K va (k_max K) = true -> k_ltb K vb (k_max K) = true -> k_ltb K md (k_max K) = true ->
-  k_ltb K (k_upd K va vb md sa sb sx) (k_max K) = true.
+  k_ltb K va (k_inf K) = true -> k_ltb K vb (k_inf K) = true -> k_ltb K md (k_inf K) = true ->
+  k_ltb K (k_upd K va vb md sa sb sx) (k_inf K) = true.
 Hypothesis rename_reducible : below_kind_of meth = BelowRename ->
   forall va vb md sa sb sx, (uses_sizes_ab meth = true -> 0 < sa /\ 0 < sb) ->
   k_ltb K va md = false -> k_ltb K vb md = false ->
@@ -272,7 +272,7 @@ Proof.
 Qed.
 
 Theorem generic_P s d m n s' d' m' :
-  Forall (fun v => ltb v (k_max K) = true) (square_all K m) ->
+  Forall (fun v => ltb v (k_inf K) = true) (square_all K m) ->
   Forall P (square_all K m) ->
   generic_with K p meth s d m n = Ok (s', d', m') -> Forall P (heights d').
 Proof.
@@ -287,9 +287,9 @@ Proof.
   pose proof (@generic_init_lb T K p ltb_irrefl ltb_trans s d m n0 Hz Hlen Hall s1 Hinit) as HLB0.
   cbn zeta in Hinit, HG0, HLB0. rewrite <- EM in Hinit, HG0, HLB0.
   destruct (mfold (init_row K p M0) (seq 0 (n0 - 1))
-              (h_prio (h_heapify_pre (k_max K) (st_queue (st_reset K s n0))), st_nearest (st_reset K s n0)))
+              (h_prio (h_heapify_pre (k_inf K) (st_queue (st_reset K s n0))), st_nearest (st_reset K s n0)))
     as [[dists nearest]| |]; cbn [bind] in Hinit, H; try discriminate.
-  destruct (h_heapify_post (k_ltb K) (h_heapify_pre (k_max K) (st_queue (st_reset K s n0))) dists) as [q1| |];
+  destruct (h_heapify_post (k_ltb K) (h_heapify_pre (k_inf K) (st_queue (st_reset K s n0))) dists) as [q1| |];
     cbn [bind] in Hinit, H; try discriminate.
   inversion Hinit as [Es1]. rewrite Es1 in H.
   assert (HSP0 : SPos (st_sizes s1) (seq 0 n0)).
